@@ -13,8 +13,8 @@ namespace Edn.Proofs
 open Edn.Model Edn.Spec
 
 /-- every outcome of a builder's life, for every element list and every allocation schedule -/
-theorem builder_outcome {α : Type} (initCap : Nat) (xs : List α) (sched : List Bool) :
-    match Builder.run initCap xs sched with
+theorem builder_outcome {α : Type} (grow : Nat → Nat) (initCap : Nat) (xs : List α) (sched : List Bool) :
+    match Builder.run grow initCap xs sched with
     | .addFailed i => i < xs.length ∧ false ∈ sched
     | .finished n none => n = xs.length ∧ (xs = [] ∨ false ∈ sched)
     | .finished n (some (st, ys)) => st = .heap ∧ ys = xs ∧ n = xs.length := by
@@ -24,15 +24,15 @@ theorem builder_outcome {α : Type} (initCap : Nat) (xs : List α) (sched : List
   | mk b s1 =>
     rw [hini] at hi1 hi2
     simp only at hi1 hi2 ⊢
-    cases hall : Builder.addAll b xs 0 s1 with
+    cases hall : Builder.addAll grow b xs 0 s1 with
     | mk o s2 =>
       cases o with
       | inl i =>
-        obtain ⟨h1, h2⟩ := addAll_inl xs b 0 s1 i s2 hall
+        obtain ⟨h1, h2⟩ := addAll_inl grow xs b 0 s1 i s2 hall
         simp only
         exact ⟨by omega, hi2 h2⟩
       | inr b' =>
-        obtain ⟨h1, h2⟩ := addAll_inr xs b 0 s1 b' s2 hall
+        obtain ⟨h1, h2⟩ := addAll_inr grow xs b 0 s1 b' s2 hall
         rw [hi1, List.nil_append] at h1
         obtain ⟨f1, f2, f3, -⟩ := finish_spec b' s2
         rw [h1] at f1 f2 f3
@@ -51,15 +51,15 @@ theorem builder_outcome {α : Type} (initCap : Nat) (xs : List α) (sched : List
           exact ⟨g1, g2, f1⟩
 
 /-- the array is never the builder's in-frame storage -/
-theorem builder_never_returns_stack {α : Type} (initCap : Nat) (xs ys : List α) (sched : List Bool) (n : Nat) (st : Store)
-    (h : Builder.run initCap xs sched = .finished n (some (st, ys))) : st = .heap := by
-  have := builder_outcome initCap xs sched
+theorem builder_never_returns_stack {α : Type} (grow : Nat → Nat) (initCap : Nat) (xs ys : List α) (sched : List Bool) (n : Nat) (st : Store)
+    (h : Builder.run grow initCap xs sched = .finished n (some (st, ys))) : st = .heap := by
+  have := builder_outcome grow initCap xs sched
   rw [h] at this
   exact this.1
 
 /-- without failing requests the builder always delivers all elements -/
-theorem builder_no_faults {α : Type} (initCap : Nat) (xs : List α) (sched : List Bool) (hs : false ∉ sched) :
-    Builder.run initCap xs sched =
+theorem builder_no_faults {α : Type} (grow : Nat → Nat) (initCap : Nat) (xs : List α) (sched : List Bool) (hs : false ∉ sched) :
+    Builder.run grow initCap xs sched =
       .finished xs.length (if xs = [] ∧ initCap ≤ 8 then none else some (.heap, xs)) := by
   obtain ⟨hi1, hi2, hi3⟩ := init_spec (α := α) initCap sched
   unfold Builder.run
@@ -68,12 +68,12 @@ theorem builder_no_faults {α : Type} (initCap : Nat) (xs : List α) (sched : Li
     rw [hini] at hi1 hi2 hi3
     simp only at hi1 hi2 hi3 ⊢
     have hs1 : false ∉ s1 := fun hm => hs (hi2 hm)
-    cases hall : Builder.addAll b xs 0 s1 with
+    cases hall : Builder.addAll grow b xs 0 s1 with
     | mk o s2 =>
       cases o with
-      | inl i => exact absurd (addAll_inl xs b 0 s1 i s2 hall).2 hs1
+      | inl i => exact absurd (addAll_inl grow xs b 0 s1 i s2 hall).2 hs1
       | inr b' =>
-        obtain ⟨h1, h2⟩ := addAll_inr xs b 0 s1 b' s2 hall
+        obtain ⟨h1, h2⟩ := addAll_inr grow xs b 0 s1 b' s2 hall
         rw [hi1, List.nil_append] at h1
         have hs2 : false ∉ s2 := fun hm => hs1 (h2 hm)
         obtain ⟨f1, -, -, f4⟩ := finish_spec b' s2
